@@ -4,9 +4,11 @@ import (
 	"bytes"
 	"fmt"
 	"math/rand/v2"
+	"os"
 	"sort"
 	"strings"
 	"testing"
+	"time"
 
 	"github.com/insomniacslk/dhcp/dhcpv4"
 	"github.com/insomniacslk/dhcp/dhcpv6"
@@ -38,6 +40,7 @@ func cutNames(p *ref4.P4) *ref4.P4 {
 }
 
 func judge4(r *mon.Rec, src string, b []byte) {
+	r.Current(map[string]any{"fam": "v4", "wire": mon.HexBytes(b), "src": src})
 	r.Eval(1)
 	rp := replay{"v4", mon.Hex(b), src}
 	var m1, m2 *dhcpv4.DHCPv4
@@ -101,6 +104,7 @@ func judge4(r *mon.Rec, src string, b []byte) {
 }
 
 func judge6(r *mon.Rec, src string, b []byte) {
+	r.Current(map[string]any{"fam": "v6", "wire": mon.HexBytes(b), "src": src})
 	r.Eval(1)
 	rp := replay{"v6", mon.Hex(b), src}
 	var m1, m2 dhcpv6.DHCPv6
@@ -197,7 +201,6 @@ func dedup(s []string) []string {
 	return out
 }
 
-
 func trunc(s string) string {
 	if len(s) > 400 {
 		return s[:400] + "…"
@@ -289,6 +292,9 @@ func nonCanon6(r *rand.Rand) []byte {
 func TestCheck(t *testing.T) {
 	r := mon.New("C06")
 	defer r.Flush()
+	if os.Getenv("VERIF_REPLAY") == "" {
+		r.Watchdog(60 * time.Second)
+	}
 	proj.CutV4Names, ref6.CutV4Names = true, true
 	var rp replay
 	if mon.ReplayCase(&rp) {
